@@ -1341,6 +1341,7 @@ impl<'bump, T: 'bump> Vec<'bump, T> {
             del: 0,
             old_len,
             pred: filter,
+            panic_flag: false,
         }
     }
 
@@ -2697,6 +2698,8 @@ where
     del: usize,
     old_len: usize,
     pred: F,
+    /// Set while the predicate runs; still set afterwards only if it panicked.
+    panic_flag: bool,
 }
 
 impl<'a, 'bump, T, F> Iterator for DrainFilter<'a, 'bump, T, F>
@@ -2709,9 +2712,16 @@ where
         unsafe {
             while self.idx != self.old_len {
                 let i = self.idx;
-                self.idx += 1;
                 let v = slice::from_raw_parts_mut(self.vec.as_mut_ptr(), self.old_len);
-                if (self.pred)(&mut v[i]) {
+                self.panic_flag = true;
+                let drained = (self.pred)(&mut v[i]);
+                self.panic_flag = false;
+                // Update the index *after* the predicate is called. If the
+                // index were updated before and the predicate panicked, the
+                // element at this index would be skipped by the back-shift in
+                // `drop` and a stale copy would become reachable instead.
+                self.idx += 1;
+                if drained {
                     self.del += 1;
                     return Some(ptr::read(&v[i]));
                 } else if self.del > 0 {
@@ -2738,9 +2748,41 @@ where
     F: FnMut(&mut T) -> bool,
 {
     fn drop(&mut self) {
-        self.for_each(drop);
-        unsafe {
-            self.vec.set_len(self.old_len - self.del);
+        struct BackshiftOnDrop<'a, 'b, 'bump, T, F>
+        where
+            F: FnMut(&mut T) -> bool,
+        {
+            drain: &'b mut DrainFilter<'a, 'bump, T, F>,
+        }
+
+        impl<'a, 'b, 'bump, T, F> Drop for BackshiftOnDrop<'a, 'b, 'bump, T, F>
+        where
+            F: FnMut(&mut T) -> bool,
+        {
+            fn drop(&mut self) {
+                unsafe {
+                    if self.drain.idx < self.drain.old_len && self.drain.del > 0 {
+                        // The predicate (or a destructor) panicked: keep the
+                        // elements that were not looked at yet by shifting
+                        // them down over the hole, without calling the
+                        // predicate again.
+                        let ptr = self.drain.vec.as_mut_ptr();
+                        let src = ptr.add(self.drain.idx);
+                        let dst = src.sub(self.drain.del);
+                        let tail_len = self.drain.old_len - self.drain.idx;
+                        ptr::copy(src, dst, tail_len);
+                    }
+                    self.drain.vec.set_len(self.drain.old_len - self.drain.del);
+                }
+            }
+        }
+
+        let backshift = BackshiftOnDrop { drain: self };
+
+        // Consume the remaining elements only if the predicate has not
+        // panicked; otherwise just restore the vector.
+        if !backshift.drain.panic_flag {
+            backshift.drain.for_each(drop);
         }
     }
 }
